@@ -93,6 +93,9 @@ func TestC39(t *testing.T) {
 			m.Gate("C_class:"+cv+"-"+sc, 12, "ECDSA scalar range class presented under none/aes256-ctr/aes256-cbc")
 		}
 	}
+	for _, rc := range relatedPointClasses {
+		m.Gate("C_class:"+rc, 10, "related-point / related-modulus class presented under all three protections")
+	}
 	for _, rc := range []string{"rsa-p-foreign-crt-consistent", "rsa-d-plus-lcm", "rsa-e-one-d-one", "rsa-e-even-outer-too", "rsa-n-not-pq", "rsa-d-wrong", "rsa-e-bad", "ed-halves-seedflip", "ed-halves-outerA"} {
 		m.Gate("C_class:"+rc, 12, "RSA/Ed25519 component class presented under all three protections")
 	}
